@@ -591,6 +591,49 @@ def w11_ba_pool(run: Run, prog: Program):
         return any(isinstance(c, ast.Call) and ("random" in ast.unparse(c.func) or
                                                 "rng" in ast.unparse(c.func))
                    for c in ast.walk(e))
+    # local closures called for their effect (`link(i, j)`) stand for their body
+    import copy as _copy
+    mnode = _copy.deepcopy(m.node)
+    closures = {d.name: d for d in mnode.body if isinstance(d, ast.FunctionDef)
+                and not d.args.vararg and not d.args.kwarg and not d.args.kwonlyargs
+                and not any(isinstance(r, ast.Return) and r.value is not None
+                            for r in ast.walk(d))}
+
+    class _Inline(ast.NodeTransformer):
+        def visit_Expr(self, e):
+            c = e.value
+            if isinstance(c, ast.Call) and isinstance(c.func, ast.Name) and \
+                    c.func.id in closures and not c.keywords and \
+                    len(c.args) == len(closures[c.func.id].args.args):
+                d = closures[c.func.id]
+                amap = {a.arg: v for a, v in zip(d.args.args, c.args)}
+
+                class S(ast.NodeTransformer):
+                    def visit_Name(self, n):
+                        return ast.copy_location(_copy.deepcopy(amap[n.id]), n) \
+                            if n.id in amap else n
+                out = []
+                for st in d.body:
+                    if isinstance(st, (ast.Nonlocal, ast.Global)) or (
+                            isinstance(st, ast.Expr) and
+                            isinstance(st.value, ast.Constant)):
+                        continue
+                    st2 = S().visit(_copy.deepcopy(st))
+                    for x in ast.walk(st2):
+                        ast.copy_location(x, e)
+                    out.append(ast.fix_missing_locations(st2))
+                return out or [ast.copy_location(ast.Pass(), e)]
+            return e
+    if closures:
+        mnode.body = [st for st in mnode.body if not (isinstance(st, ast.FunctionDef)
+                                                      and st.name in closures)]
+        mnode = _Inline().visit(mnode)
+
+        class _M:
+            pass
+        m2 = _M()
+        m2.node, m2.module = mnode, m.module
+        m = m2
     # the draw: `i = pool[<random index below bound>]` inside a rejection loop
     draws = []
 
